@@ -635,6 +635,84 @@ func (vc *VC) havocFresh(fr *Frame, st *State, ms *ModSet, before string) {
 // jsonShapeFacts: what encoding/json guarantees about decoded skeletons
 // (filled in where the unmarshaling contracts need it).
 func (vc *VC) jsonShapeFacts(st *State, v *Val, t types.Type, okc, text string) {
+	u := vc.u
+	named, _ := types.Unalias(t).(*types.Named)
+	name := ""
+	if named != nil {
+		name = named.Obj().Name()
+	}
+	_, hb := vc.heap(st, byteT)
+	str := func(sl string) string { return "(bytes2str " + hb + " " + sl + ")" }
+	rawOK := func(sl string) string { // a decoded RawMessage is a non-empty JSON text
+		return "(> (slen " + sl + ") 0)"
+	}
+	switch {
+	case name == "resourceSkeleton":
+		// JSON-structure axiom: the decoded skeleton exposes exactly the members of
+		// the payload object; these observation functions depend on the text only
+		u.declareUninterp("jsonOK_resource", []string{"String"}, "Bool")
+		u.declareUninterp("rsk_id", []string{"String"}, "String")
+		u.declareUninterp("rsk_type", []string{"String"}, "String")
+		u.declareUninterp("rsk_hasAttr", []string{"String", "String"}, "Bool")
+		u.declareUninterp("rsk_attrText", []string{"String", "String"}, "String")
+		u.declareUninterp("rsk_hasRel", []string{"String", "String"}, "Bool")
+		u.declareUninterp("rsk_relData", []string{"String", "String"}, "String")
+		si := u.structOf(t)
+		f := func(n string) string {
+			for i := 0; i < si.st.NumFields(); i++ {
+				if si.st.Field(i).Name() == n {
+					return "(" + si.fields[i] + " " + v.S + ")"
+				}
+			}
+			return ""
+		}
+		vc.assume(fmt.Sprintf("(= %s (jsonOK_resource %s))", okc, text))
+		vc.assume(implies(okc, fmt.Sprintf("(and (= %s (rsk_id %s)) (= %s (rsk_type %s)))", f("ID"), text, f("Type"), text)))
+		// attributes
+		amt := types.NewMap(tString, types.NewSlice(byteT))
+		_, ad, av, _ := vc.mapArrays(st, amt)
+		am := f("Attributes")
+		vc.assume(implies(okc, fmt.Sprintf("(forall ((k String)) (! (= (and (not (= %s 0)) (select (select %s %s) k)) (rsk_hasAttr %s k)) :pattern ((select (select %s %s) k)) :pattern ((rsk_hasAttr %s k))))", am, ad, am, text, ad, am, text)))
+		vc.assume(implies(okc, fmt.Sprintf("(forall ((k String)) (! (=> (rsk_hasAttr %s k) (and %s (= %s (rsk_attrText %s k)))) :pattern ((select (select %s %s) k))))", text, rawOK("(select (select "+av+" "+am+") k)"), str("(select (select "+av+" "+am+") k)"), text, av, am)))
+		// relationships
+		for i := 0; i < si.st.NumFields(); i++ {
+			if si.st.Field(i).Name() != "Relationships" {
+				continue
+			}
+			rmt := types.Unalias(si.st.Field(i).Type()).Underlying().(*types.Map)
+			_, rd, rv, _ := vc.mapArrays(st, rmt)
+			rm := f("Relationships")
+			rsi := u.structOf(rmt.Elem())
+			data := "(" + rsi.fields[0] + " (select (select " + rv + " " + rm + ") k))"
+			vc.assume(implies(okc, fmt.Sprintf("(forall ((k String)) (! (= (and (not (= %s 0)) (select (select %s %s) k)) (rsk_hasRel %s k)) :pattern ((select (select %s %s) k)) :pattern ((rsk_hasRel %s k))))", rm, rd, rm, text, rd, rm, text)))
+			vc.assume(implies(okc, fmt.Sprintf("(forall ((k String)) (! (=> (rsk_hasRel %s k) (= %s (rsk_relData %s k))) :pattern ((select (select %s %s) k))))", text, str(data), text, rv, rm)))
+		}
+		vc.assumed["json structure axiom: the decoded resourceSkeleton exposes exactly the members of the payload object (rsk_* observation functions of the text)"] = true
+	case name == "Identifier":
+		u.declareUninterp("isIdentJSON", []string{"String"}, "Bool")
+		u.declareUninterp("ident_id", []string{"String"}, "String")
+		u.declareUninterp("ident_type", []string{"String"}, "String")
+		si := u.structOf(t)
+		vc.assume(fmt.Sprintf("(= %s (isIdentJSON %s))", okc, text))
+		vc.assume(implies(okc, fmt.Sprintf("(and (= (%s %s) (ident_id %s)) (= (%s %s) (ident_type %s)))", si.fields[0], v.S, text, si.fields[1], v.S, text)))
+	case name == "Identifiers":
+		u.declareUninterp("isIdentsJSON", []string{"String"}, "Bool")
+		u.declareUninterp("idents_len", []string{"String"}, "Int")
+		u.declareUninterp("idents_id", []string{"String", "Int"}, "String")
+		vc.assume(fmt.Sprintf("(= %s (isIdentsJSON %s))", okc, text))
+		et := sliceElem(t)
+		_, he := vc.heap(st, et)
+		esi := u.structOf(et)
+		vc.assume(implies(okc, fmt.Sprintf("(and (= (slen %s) (idents_len %s)) (>= (idents_len %s) 0))", v.S, text, text)))
+		vc.assume(implies(okc, fmt.Sprintf("(forall ((i Int)) (! (=> (and (<= 0 i) (< i (slen %s))) (= (%s (select %s (idx (sptr %s) i))) (idents_id %s i))) :pattern ((select %s (idx (sptr %s) i)))))", v.S, esi.fields[0], he, v.S, text, he, v.S)))
+	default:
+		// slices of raw messages: every element is a non-empty JSON text;
+		// slices of *RawMessage may hold nil (JSON null)
+		if et := sliceElem(t); et != nil && isByteSlice(et) {
+			_, he := vc.heap(st, et)
+			vc.assume(implies(okc, fmt.Sprintf("(forall ((a Int)) (! (=> (and (<= (sptr %s) a) (< a (+ (sptr %s) (slen %s)))) %s) :pattern ((select %s a))))", v.S, v.S, v.S, rawOK("(select "+he+" a)"), he)))
+		}
+	}
 }
 
 // sortSlice: assumed contract of sort.Slice(x, less): x is permuted in place
